@@ -19,6 +19,15 @@ for sid in "${ids[@]}"; do
     echo "| $sid | $c | ${rc:-rc=?} | ${n:-} | ${first:-$(echo "$res" | tail -1 | cut -c1-120)} |" | tee -a "$tmp"
   done
 done
+# a partial run keeps the rows of the changes that were not rerun
+if [ $# -gt 0 ] && [ -f "$out" ]; then
+  keep=$(mktemp)
+  grep -E '^\| C[0-9]+-[a-z] ' "$out" | while IFS= read -r line; do
+    sid=$(echo "$line" | cut -d'|' -f2 | tr -d ' ')
+    grep -q "^| $sid " "$tmp" || echo "$line"
+  done > "$keep"
+  cat "$keep" "$tmp" | sort -s -t'|' -k2,2 > "$tmp.all"; mv "$tmp.all" "$tmp"; rm -f "$keep"
+fi
 {
   echo "# Seeded changes: which quick check reports which change"
   echo
